@@ -80,6 +80,26 @@ def make_scenarios(rng, tier):
             sc["steps"].append({"op": "snapshot", "probe": names, "_active": [], "_done": shadow + later})
             scs.append(sc)
             sid += 1
+    # a pool that has been CLEARED and brought back into service (full update / incremental update) isolates its requests as before
+    for (mn, mx) in [(1, 2), (2, 3)]:
+        for back in ("update", "incr"):
+            sc = {"id": sid, "min": mn, "max": mx, "model": 1, "rules": rules_v(1), "steps": []}
+            names = ["pa", "pb", "pc"]
+            sc["steps"].append({"op": "clear"})
+            sc["steps"].append({"op": back, "rules": rules_v(2)})
+            rid = sid * 1000
+            for rnd in range(2):
+                held = []
+                for _ in range(mx):
+                    rid += 1
+                    held.append(rid)
+                    sc["steps"].append(req_step(rid, ["Execute", "ExecuteConcurrent"][rnd], names, hold_at="*"))
+                sc["steps"].append({"op": "snapshot", "probe": names, "_active": list(held), "_done": []})
+                for q in reversed(held):
+                    sc["steps"].append({"op": "release", "id": q})
+                sc["steps"].append({"op": "snapshot", "probe": names, "_active": [], "_done": list(held)})
+            scs.append(sc)
+            sid += 1
     # ExecuteRulesWithSpecifiedEM takes two named objects; a call may carry only the SECOND ("response") one: it is injected, and
     # must be taken out again when the call returns, like any other request data
     for (mn, mx) in [(1, 2), (2, 3)]:
@@ -112,7 +132,7 @@ def make_scenarios(rng, tier):
 RULE = ("scenarios as C17 (overlap rounds and random walks over pool states) on pools (1,2),(2,3),(2,5) plus every one of the 24 wrapper methods paired on a (1,2) pool, once with sound rules and once with a failing and a panicking rule next to the held one: max requests held at a gate inside their first rule while snapshots read every instance's data context by reflection; "
         "every request carries a unique id in its own injected object and under a unique key (in eight scenarios also under the name of an api the pool was built with; in two, through the response slot alone of the two-object wrapper); rules echo the id into the returned values and into the request's object; "
         "checked inside Coq: the instances holding request keys are exactly the executing requests, one each; nothing of a returned request is left in any instance; returned maps contain only the caller's id and are unchanged when read again at the end; "
-        "distinct non-trivial = snapshots taken while at least two requests were simultaneously inside a rule")
+        "plus four scenarios on pools that were cleared and brought back into service by a full / incremental update; distinct non-trivial = snapshots taken while at least two requests were simultaneously inside a rule")
 
 
 def main(run):
